@@ -8,5 +8,9 @@ i = s.index('## 9. As built')
 head = open(os.path.join(V, 'docs', 'design_9_head.md')).read()
 tail = open(os.path.join(V, 'docs', 'design_9_tail.md')).read()
 tables = subprocess.run(['python3', os.path.join(V, 'tools', 'gen_design_tables.py')], capture_output=True, text=True, check=True).stdout
+log = subprocess.run(['git', '-C', '/repo', 'log', '--format=%s'], capture_output=True, text=True).stdout.splitlines()
+total = sum(1 for l in log if l.startswith('fix:'))
+r3 = subprocess.run(['git', '-C', '/repo', 'log', '--format=%s', '22cf9e4..HEAD'], capture_output=True, text=True).stdout.splitlines()
+tail = tail.replace('FIXCOUNT', str(sum(1 for l in r3 if l.startswith('fix:')))).replace('FIXTOTAL', str(total))
 open(os.path.join(V, 'DESIGN.md'), 'w').write(s[:i] + head.rstrip('\n') + '\n\n\n' + tables.rstrip('\n') + '\n\n\n' + tail.rstrip('\n') + '\n')
 print('DESIGN.md section 9 rebuilt')
